@@ -185,7 +185,75 @@ def judge(ctx, case, res, w):
     return problems
 
 
+def worker_lost_in_bootstrap(ctx):
+    """Start method spawn: a worker is lost BEFORE it reaches its entry point (its bootstrap dies while it imports the application's main
+    module - scripted with a counter file, at the first worker / after a recycle / after both). The replay given to the lost worker is
+    reported as a failure, the run goes on with a fresh worker, completes and leaves no worker behind."""
+    import json
+    import os
+    import signal
+    import subprocess
+    import sys
+    import tempfile
+    from vlib import env
+    script = os.path.join(env.VERIF, 'vlib', 'eqspawn.py')
+    for dies_at, n, recycle in ((2, 5, 2), (1, 3, 2), (3, 7, 3)) if ctx.quick else ((2, 5, 2), (1, 3, 2), (3, 7, 3), (2, 4, 1), (4, 9, 2)):
+        case = {'behaviours': ['equal'] * n, 'start_method': 'spawn', 'recycle': recycle, 'keep': True, 'only_dedicated': True, 'timeout': 5}
+        w = {'worker_lost_in_bootstrap': dies_at, 'case': case}
+        ctx.case(w)
+        verdict = None
+        for attempt in range(2):
+            fd, counter = tempfile.mkstemp(prefix='vp-eqspawn-counter-')
+            os.close(fd)
+            p = subprocess.Popen([sys.executable, script, json.dumps(case)], stdout=subprocess.PIPE, stderr=subprocess.PIPE, text=True, start_new_session=True,
+                                 env=dict(os.environ, VERIF_REPO=env.REPO, VP_EQSPAWN_BOOTSTRAP_COUNTER=counter, VP_EQSPAWN_BOOTSTRAP_DIES=str(dies_at),
+                                          PYTHONWARNINGS='ignore'))
+            try:
+                out, err = p.communicate(timeout=90)
+                verdict = 'ended'
+            except subprocess.TimeoutExpired:
+                verdict = 'watchdog'
+            try:
+                os.killpg(p.pid, signal.SIGKILL)
+            except OSError:
+                pass
+            if verdict == 'watchdog':
+                out, err = p.communicate()
+            boots = open(counter).read()
+            os.unlink(counter)
+            if verdict == 'ended':
+                break
+        ctx.count('runs_with_a_worker_lost_in_its_bootstrap')
+        if verdict == 'watchdog':
+            ctx.violation('comparison run did not terminate after a worker was lost in its bootstrap (harness watchdog of 90 s fired twice; worker bootstraps: %s)' % boots, w)
+            continue
+        lines = [l for l in out.splitlines() if l.startswith('{')]
+        if p.returncode != 0 or not lines:
+            ctx.inconclusive('spawn case crashed: %s' % err[-300:])
+            continue
+        res = json.loads(lines[-1])
+        if int(boots or 0) < dies_at:
+            ctx.count('bootstrap_fault_not_reached')
+            continue
+        ctx.count('census_taken')
+        if res['error']:
+            ctx.violation('comparison run ended with an error after a worker was lost in its bootstrap: %s' % res['error'][:150], w)
+            continue
+        got = res['dedicated']
+        if [r['recording_id'] for r in got] != res['ids']:
+            ctx.violation('not exactly one comparison per id, in order, after a worker was lost in its bootstrap (%d of %d)' % (len(got), len(res['ids'])), w)
+            continue
+        failures = [i for i, r in enumerate(got) if r['status'] != 'Equal']
+        ctx.count('comparisons_timed', len(got))
+        if len(failures) != 1 or got[failures[0]]['status'] != 'EqualizerFailure':
+            ctx.violation('a run that lost exactly one worker in its bootstrap reported %r' % ([r['status'] for r in got],), w)
+        if res['leftover_children']:
+            ctx.violation('worker processes left after the run: %r' % (res['leftover_children'],), w)
+
+
 def run(ctx):
+    if ctx.shard == 0:
+        worker_lost_in_bootstrap(ctx)
     cases = [dict(c, dedicated=True, keep=False) for i, c in enumerate(cases_for(ctx)) if ctx.mine(i)]
     outs = H.run_cases(cases, parallel=8 if ctx.nshards == 1 else 2)
     for case, (res, status) in zip(cases, outs):
@@ -221,6 +289,8 @@ def run(ctx):
 
 
 def replay(ctx, w):
+    if w.get('worker_lost_in_bootstrap'):
+        return worker_lost_in_bootstrap(ctx)
     res, status = H.run_one(w['case'])
     if status != 'ok':
         print('case', status, res)
